@@ -215,5 +215,5 @@ def run(rep, tier):
                        'div_rounded / mul_rounded is interpreted with symbolic operands and the proved rounding summaries: n > 18 is rejected by every implementation; a zero divisor panics; '
                        'otherwise the result is the single term Rnd[thread](exact rational) at scale exactly n (exact product at scale p+q when n >= p+q; (0,0) for a zero operand); '
                        'quantize is div_rounded(q, 0) * q by shape.')
-    rep.assume('modulo the summaries R (proved in C05) and W (proved in C16 under contract U of the unsigned 256-bit kernels)')
+    rep.assume('modulo the summaries R (proved in C05) and W (proved in C16 down to the unsigned 256-bit kernels, Knuth-D included; the relevant proofs are re-run here as DEP-* obligations)')
     rep.trust('rustc nightly MIR; absint transfer functions and callee models')
